@@ -92,6 +92,22 @@ def writer_reader(ctx, g, rd):
     ctx.ob("T4-reader-ranges", rd.name, "ops: 0..=dim x 1..=size (first unassigned); degrees: 0..dim x 1..=size, v = m / r(i, i+1, d)", "ok" if okr_ops and okr_ms else "violation",
            "the parser consumes images for unassigned (i, d) over 0..=dim x 1..=size and degrees over 0..dim x 1..=size with v = m / r(i, i+1, d)" if okr_ops and okr_ms else
            "the parser's fill loops do not range like the printer's (ops ok: %s, degrees ok: %s): texts produced by Display are mis-read" % (okr_ops, okr_ms))
+    # completeness of the fill loop (so that the is_complete assertion of SimpleDSet::from_partial cannot fire): whenever (i, d) is still
+    # unassigned, every path that continues the loop passes set(i, d, ..); all other paths leave the function (with an Err)
+    okfill = False
+    for bi, t in rd.calls(exact="dsets::PartialDSet::set"):
+        lp = loop_containing(rd, bi)
+        if lp is None:
+            continue
+        a = [norm(rd.origin(x), g) for x in t["args"]]
+        zero = ("rel", "Eq", ("call", "dsets::PartialDSet::op_unchecked", (a[0], a[1], a[2])), ("int", 0))
+        # the first block in the loop body where `op_unchecked(i, d) == 0` is known
+        starts = [b_ for b_ in sorted(loop_body(rd, lp[0], lp[1])) if any(implies(atom_norm(h, g), zero) for h in rd.facts_at(b_)) and
+                  not any(implies(atom_norm(h, g), zero) for p_ in rd.pred().get(b_, []) for h in rd.facts_at(p_))]
+        okfill = bool(starts) and all(must_pass_through(rd, s_, bi, lp[0]) for s_ in starts)
+    ctx.ob("T3-fill-complete", rd.name, "unassigned (i, d) -> set(i, d, ..) or Err", "ok" if okfill else "violation",
+           "every still-unassigned entry is assigned before the loop continues (or parsing ends with an error): the D-set is complete when it is converted" if okfill else
+           "an unassigned entry (i, d) can be left unassigned while the fill loop continues: SimpleDSet::from_partial then panics on its completeness assertion")
     # dimension default: printer omits dim exactly for 2, grammar defaults to 2
     wconst = None
     for bi, blk in wr.live_blocks():
